@@ -25,8 +25,10 @@
 (* tools: random behaviours (-simulate; CtlDoc_sim.cfg: everything,           *)
 (* CtlDoc_sim2.cfg: b/c/i entries with few kinds of statements,               *)
 (* CtlDoc_sim3.cfg: N/I/M comments only) and the complete set of finished     *)
-(* small documents (-dump of the reachable states of CtlDoc_sweep.cfg /       *)
-(* CtlDoc_sweep2.cfg).  Texts are abstract: a comment                         *)
+(* small documents (-dump of the reachable states of CtlDoc_sweep*.cfg: one    *)
+(* entry of up to 3 one-statement sub-blocks with one I / M / N comment;       *)
+(* 4 or 5 one-statement B / C sub-blocks with one M comment over any range).   *)
+(* Texts are abstract: a comment                                               *)
 (* is [t0, nw, nl, sh, dot] = nw fresh word tokens t0+1..t0+nw laid out on   *)
 (* nl lines, decorated according to shape sh (braces in the positions the    *)
 (* skool format allows, blank, dots only), written with dot/colon directives *)
@@ -45,8 +47,9 @@ CONSTANTS MaxTop,      \* bound on the size of the range in bytes
           GenBlockTypes,                  \* entry types offered to the generator (a subset of BlockTypes)
           GenNoteKinds,                   \* comment kinds offered to the generator (a subset of NoteKinds)
           GenSubTypes,                    \* sub-block types offered to the generator (a subset of SubTypes)
-          Terse,                          \* TRUE: one text layout and the blank comment only (exhaustive sweeps)
-          Rich,                           \* TRUE: the full statement universe; FALSE: two statements per type
+          Terse,                          \* 0: every layout; 1: one text layout and the blank comment; 2: one text layout
+                                          \* (1, 2: exhaustive sweeps)
+          Rich,                           \* 2: the full statement universe; 1: two statements per type; 0: the minimum
           Phased                          \* TRUE: annotate only finished structures (used for generation)
 
 VARIABLES blocks, subs, notes, dirs, igs, nons, top, ntok, closed
@@ -89,7 +92,11 @@ FewStmtsOf(ty) == CASE ty = "C" -> {Stmt(1, 0, "", <<>>), Stmt(2, 1, "h", <<>>)}
                     [] ty = "W" -> {Data(<<P(2, "n")>>)}
                     [] ty = "S" -> {Stmt(1, 0, "", <<P(1, "n")>>), Stmt(1, 0, "", <<P(1, "h"), P(0, "c")>>)}
                     [] OTHER -> {}
-StmtsOf(ty) == IF Rich THEN AllStmtsOf(ty) ELSE FewStmtsOf(ty)
+MinStmtsOf(ty) == CASE ty = "C" -> {Stmt(1, 0, "", <<>>), Stmt(2, 1, "h", <<>>)}      \* without / with a numeric operand
+                    [] ty = "B" -> {Data(<<P(1, "n")>>)} [] ty = "T" -> {Data(<<P(1, "c")>>)}
+                    [] ty = "W" -> {Data(<<P(2, "n")>>)} [] ty = "S" -> {Stmt(1, 0, "", <<P(1, "n")>>)}
+                    [] OTHER -> {}
+StmtsOf(ty) == IF Rich = 2 THEN AllStmtsOf(ty) ELSE IF Rich = 1 THEN FewStmtsOf(ty) ELSE MinStmtsOf(ty)
 
 RECURSIVE SumN(_)
 SumN(q) == IF q = <<>> THEN 0 ELSE Head(q).n + SumN(Tail(q))
@@ -238,12 +245,12 @@ Finish == /\ ~closed /\ blocks # <<>> /\ blocks[Len(blocks)].ty # "i" /\ closed'
           /\ UNCHANGED <<blocks, subs, notes, dirs, igs, nons, top, ntok>>
 
 \* comment layouts offered to the generator: <<words, lines, dot form>> (a multi-line layout needs the dot form)
-Layouts == IF Terse THEN {<<nw, 1, 0>> : nw \in WordCounts}
+Layouts == IF Terse > 0 THEN {<<nw, 1, 0>> : nw \in WordCounts}
            ELSE {<<nw, 1, 0>> : nw \in WordCounts} \cup {<<nw, 1, 1>> : nw \in WordCounts}
                 \cup {<<nw, nl, 1>> : nw \in WordCounts \ {1}, nl \in {2}} \cup {<<nw, 3, 1>> : nw \in WordCounts \ {1, 2}}
-ILayouts == IF Terse THEN {<<"plain", ly>> : ly \in Layouts} \cup {<<"blank", <<0, 1, 0>>>>}
+ILayouts == IF Terse > 0 THEN {<<"plain", ly>> : ly \in Layouts} \cup {<<"blank", <<0, 1, 0>>>>}
             ELSE {<<sh, ly>> : sh \in TextShapes, ly \in Layouts} \cup {<<sh, <<0, 1, 0>>>> : sh \in BlankShapes}
-GenShapes == IF Terse THEN {"plain"} ELSE TextShapes
+GenShapes == IF Terse > 0 THEN {"plain"} ELSE TextShapes
 SubEnds == {SubEnd(subs[j]) : j \in 1..Len(subs)}
 
 Build == \/ ("i" \in GenBlockTypes /\ \E s \in 1..3 : AddBlock("i", "I", s))
